@@ -58,8 +58,11 @@ func render(v any) string {
 }
 
 // hostileUints are scalar values whose first (little-endian) byte is JSON syntax, whitespace, or an
-// extreme; the upper bytes are optionally randomised.
-var hostileUints = []uint64{'{', '[', '"', ' ', '\n', '\t', '}', ']', 'n', 't', 'f', '0', '-', 0, 1, 0xff, 0x7b7b7b7b7b7b7b7b, 0x207b, 0x0a7b, 1<<63 | '{', ^uint64(0), 1 << 32}
+// extreme, or whose low bytes equal an offset constant of the SSZ containers (12, 13, 20: the offsets of the
+// versioned wrappers; multiples of 4 up to 256: first offsets of the inner containers); the upper bytes are
+// optionally randomised.
+var hostileUints = []uint64{'{', '[', '"', ' ', '\n', '\t', '}', ']', 'n', 't', 'f', '0', '-', 0, 1, 0xff, 0x7b7b7b7b7b7b7b7b, 0x207b, 0x0a7b, 1<<63 | '{', ^uint64(0), 1 << 32,
+	12, 13, 20, 12, 13, 20, 1<<32 | 20, 1<<32 | 12, 4, 8, 16, 24, 84, 100, 228, 232, 236}
 
 func TestC14RoundTrip(t *testing.T) {
 	vstat.Rule("C14", ruleRT)
